@@ -321,7 +321,7 @@ def parse_shim(path):
 
 def run_breadlog(built, box, config, check=False, cwd=None, rules=None, shim=False, trace=False,
                  strace=False, timeout=120, env_extra=None, tmpdir=None, cfg_arg=None, async_signal=None, stdio_ops=False, stdin_tty=False,
-                 argv_override=None):
+                 argv_override=None, wrap=None):
     """Run the real binary once. config: absolute path of the yaml (cfg_arg overrides what is passed)."""
     argv = [built.path, "-c", cfg_arg or config]
     if check:
@@ -350,10 +350,10 @@ def run_breadlog(built, box, config, check=False, cwd=None, rules=None, shim=Fal
         env["BREADLOG_VERIF_TRACE"] = tracelog
     if env_extra:
         env.update(env_extra)
-    full = argv
+    full = (list(wrap) + argv) if wrap else argv
     if strace:
         stracelog = box.logpath("strace")
-        full = ["strace", "-f", "-y", "-qq", "-s", "0", "-o", stracelog] + argv
+        full = ["strace", "-f", "-y", "-qq", "-s", "0", "-o", stracelog] + full
     t0 = time.time()
     r0 = resource.getrusage(resource.RUSAGE_CHILDREN)
     pty_fds = None
